@@ -13,11 +13,12 @@ PLANS = {
     "C01": dict(
         quick=dict(mc=["core2"], gens=[dict(maxlog=2, num=60, depth=24, lean=True, focus="commit")],
                    per_beh=3, fs=[1, 3, 25, 60], vts=["tiny", "edge", "ovf", "empty", "big", "mixed", "mixed2"],
-                   embs=api.EMBEDDINGS_QUICK, forced=[("scatter", "mixed", 60)], clusters=6),
+                   embs=api.EMBEDDINGS_QUICK, forced=[("scatter", "mixed", 60)], clusters=6, wide=dict(runs=2, fs=[2000, 2400])),
         thorough=dict(mc=["core", "core2"], gens=[dict(maxlog=2, num=600, depth=30, lean=True, focus="commit"),
                                                   dict(maxlog=3, num=300, depth=30, lean=False, focus="commit")],
                       per_beh=4, fs=[1, 3, 25, 60, 400], vts=["tiny", "edge", "ovf", "empty", "big", "huge", "mixed", "mixed2"],
-                      embs=api.EMBEDDINGS_ALL, forced=[("scatter", "mixed", 60), ("scatter", "mixed2", 200)], clusters=40)),
+                      embs=api.EMBEDDINGS_ALL, forced=[("scatter", "mixed", 60), ("scatter", "mixed2", 200)], clusters=40,
+                      wide=dict(runs=8, fs=[1500, 2000, 2400, 3000]))),
     "C02": dict(
         quick=dict(mc=["core2"], gens=[dict(maxlog=2, num=60, depth=24, lean=True, focus="commit"),
                                        dict(maxlog=2, num=500, depth=28, lean=True, focus="overlay", top=40, templates=True)],
@@ -376,7 +377,7 @@ def run_plan(pid, tier, seed, extra_cov=None, t0=None):
             store.update(hashtable_buckets=16000, commit_concurrency=[2, 3, 2, 4][wi % 4])
             run += 1
             sc = api.make_script(run, beh, store, conc)
-            sc["decode"] = True
+            sc["decode"] = bool(plan.get("decode"))
             scripts[run] = sc
             classes[run] = "ml2_rb1"
             script_by_run[run] = sc
